@@ -8,5 +8,6 @@ CONSTANTS
   FrozenCloseOk = TRUE
   SerialiseKill = TRUE
   MaxT = 1
+  Lag = 0
 INVARIANT Done
 CHECK_DEADLOCK FALSE
